@@ -102,6 +102,12 @@ func c05Judge(c *core.Ctx, k *core.Case, ep int, b []byte, t *c05Table, mustAcce
 
 // oracle "grid": I=[b0Lo, b0Hi] — every (first octet, type) pair at both header offsets
 func c05Grid(c *core.Ctx, k *core.Case) {
+	if len(k.I) > 2 && k.I[2]&2 == 2 && c.Scratch["verbose"] == nil { // library logging at Trace level
+		c.Scratch["verbose"] = true
+		defer delete(c.Scratch, "verbose")
+		withVerboseLogging(func() { c05Grid(c, k) })
+		return
+	}
 	sp := mustSpec(c)
 	if sp == nil {
 		return
@@ -153,7 +159,11 @@ func c05Grid(c *core.Ctx, k *core.Case) {
 		}
 	}
 	c.Eval(n)
-	c.Count("grid_pairs", (k.I[1]-k.I[0])*256)
+	if len(k.I) > 2 && k.I[2]&2 == 2 {
+		c.Count("grid_pairs_trace_level", (k.I[1]-k.I[0])*256)
+	} else {
+		c.Count("grid_pairs", (k.I[1]-k.I[0])*256)
+	}
 }
 
 func b2i(b bool) int64 {
@@ -175,6 +185,12 @@ func c05One(c *core.Ctx, k *core.Case) {
 
 // oracle "short": every input shorter than a header, nil and empty
 func c05Short(c *core.Ctx, k *core.Case) {
+	if len(k.I) > 0 && k.I[0]&2 == 2 && c.Scratch["verbose"] == nil { // library logging at Trace level
+		c.Scratch["verbose"] = true
+		defer delete(c.Scratch, "verbose")
+		withVerboseLogging(func() { c05Short(c, k) })
+		return
+	}
 	var n int64
 	for ep := 0; ep < 3; ep++ {
 		m := nas.NewMessage()
@@ -200,7 +216,8 @@ func c05Short(c *core.Ctx, k *core.Case) {
 		}
 		for b0 := 0; b0 < 256; b0++ {
 			for _, rest := range [][]byte{{}, {0}, {0x41}, {0, 0}, {0, 0xc1}, {0xff, 0xff}} {
-				in := append([]byte{byte(b0)}, rest...)
+				in := make([]byte, 0, 1+len(rest)) // exactly as much memory as the input has octets
+				in = append(append(in, byte(b0)), rest...)
 				hl := 3
 				if ep == epGsm || (ep == epPlain && b0 == 0x2e) {
 					hl = 4
@@ -411,6 +428,13 @@ func init() {
 		}
 		us = append(us, core.Unit{Name: "short", Weight: 5, Run: func(c *core.Ctx) {
 			c.Do(&core.Case{Oracle: "short", Target: "nas.Message"})
+		}})
+		us = append(us, core.Unit{Name: "verbose-logging", Weight: 30, Run: func(c *core.Ctx) {
+			// the same routing with the library's logger at Trace level
+			c.Do(&core.Case{Oracle: "short", Target: "nas.Message", I: []int64{2}})
+			for _, b0 := range []int64{0x7c, 0x2c, 0x00, 0xfc} {
+				c.Do(&core.Case{Oracle: "grid", Target: "nas.Message", I: []int64{b0, b0 + 4, 2}})
+			}
 		}})
 		if sp, err := codecSpec(); err == nil {
 			// legal messages whose size walks across 2^16: routing depends on two octets only
